@@ -476,9 +476,18 @@ func startWorld(res *lib.Result, cases *[]Case) *world {
 	now := time.Now().Unix()
 	reader := Ident{Topic: []byte("stats"), Scopes: [][]byte{[]byte("read")}, CanRead: true, ExpiresAt: expText(now + 3600),
 		UserAgent: []byte("c14-stats-reader"), Addr: []byte{}}
-	c, err := w.connect(reader, "c14-reader")
+	var c *websocket.Conn
+	var err error
+	for try := 0; try < 50; try++ { // the relay may still be coming up on a loaded machine
+		if c, err = w.connect(reader, "c14-reader"); err == nil {
+			break
+		}
+		time.Sleep(100 * time.Millisecond)
+	}
 	if err != nil {
-		res.Violate(lib.Violation{Clause: "stats-topic-silent", Case: -1, Detail: "cannot join the stats topic: " + err.Error(), Key: "stats-topic-unreachable"})
+		// no relay to talk to (e.g. its port was taken between FreePorts and Listen): nothing to observe
+		res.Notes = append(res.Notes, "the harness's relay could not be reached ("+err.Error()+"): histories not evaluated")
+		res.Count("hist:relay-unreachable")
 		return w
 	}
 	w.keep = append(w.keep, c)
@@ -503,28 +512,47 @@ func startWorld(res *lib.Result, cases *[]Case) *world {
 func (w *world) feederCheck() {
 	feeder := Ident{Topic: []byte("stats"), Scopes: [][]byte{[]byte("read"), []byte("stats"), []byte("write")}, CanRead: true, CanWrite: true,
 		ExpiresAt: []byte("0001-01-01T00:00:00Z"), UserAgent: []byte("crossbar"), Addr: []byte("internal")}
-	now := time.Now().Unix()
-	_ = now
-	w.mu.Lock()
-	f := w.last
-	w.mu.Unlock()
+	// a frame that arrives after the histories have ended (within two reporting intervals)
+	since := time.Now()
+	var f frame
 	var readerWho *Ident
 	var obs []Ident
-	for _, r := range f.reports {
-		if r.Topic == "stats" {
-			id := identOfStatus(r)
-			obs = append(obs, id)
-			if string(id.UserAgent) == "c14-stats-reader" {
-				x := id
-				readerWho = &x
+	var script []Ev
+	var expected []Ident
+	seen := -2
+	for time.Now().Before(since.Add(settle)) {
+		w.mu.Lock()
+		f = w.last
+		w.mu.Unlock()
+		if f.seq == seen || f.seq < 0 || f.at.Before(since) {
+			time.Sleep(50 * time.Millisecond)
+			continue
+		}
+		seen = f.seq
+		readerWho, obs = nil, nil
+		for _, r := range f.reports {
+			if r.Topic == "stats" {
+				id := identOfStatus(r)
+				obs = append(obs, id)
+				if string(id.UserAgent) == "c14-stats-reader" {
+					x := id
+					readerWho = &x
+				}
 			}
 		}
+		script = []Ev{{K: "join", ID: 1, Who: &feeder, Internal: true}}
+		expected = []Ident{feeder}
+		if readerWho != nil {
+			script = append(script, Ev{K: "join", ID: 2, Who: readerWho})
+			expected = append(expected, *readerWho)
+		}
+		if cl, _ := diffIdents(expected, obs); cl == "" {
+			break
+		}
 	}
-	script := []Ev{{K: "join", ID: 1, Who: &feeder}}
-	expected := []Ident{feeder}
-	if readerWho != nil {
-		script = append(script, Ev{K: "join", ID: 2, Who: readerWho})
-		expected = append(expected, *readerWho)
+	if script == nil {
+		script = []Ev{{K: "join", ID: 1, Who: &feeder, Internal: true}}
+		expected = []Ident{feeder}
 	}
 	fi := w.addCase(Case{Kind: "hist", Evs: script, Obs: obs, Source: "stats-topic", Note: "feeder"})
 	if cl, d := diffIdents(expected, obs); cl != "" || f.seq < 0 {
@@ -533,8 +561,11 @@ func (w *world) feederCheck() {
 	}
 }
 
-func runHistories(a lib.Args, rng *lib.Rng, res *lib.Result, cases *[]Case) {
-	w := startWorld(res, cases)
+func runHistories(a lib.Args, rng *lib.Rng, w *world) {
+	res := w.res
+	if len(w.keep) == 0 {
+		return
+	}
 	n := a.Pick(20, 120)
 	var wg sync.WaitGroup
 	batch := 20
